@@ -93,11 +93,13 @@ def add_features_calculator(mod: fx.GraphModule, extra_rules: List[Callable] = [
             input_shape = n.all_input_nodes[0].meta['tensor_meta'].shape
             start_dim = try_get_args(n, mod, 1, 'start_dim', 0)
             end_dim = try_get_args(n, mod, 2, 'end_dim', -1)
-            assert start_dim != 0 and len(input_shape) - start_dim != 0, \
-                "Flattening the batch not supported"
+            # negative dims count from the end; end_dim is included in the flattened range
+            start_dim = start_dim + len(input_shape) if start_dim < 0 else start_dim
+            end_dim = end_dim + len(input_shape) if end_dim < 0 else end_dim
+            assert start_dim != 0, "Flattening the batch not supported"
             # if flatten includes the channels
-            if start_dim == 1 or len(input_shape) - start_dim == 1:
-                flattened_size = math.prod(input_shape[2:end_dim if end_dim != -1 else None])
+            if start_dim == 1:
+                flattened_size = math.prod(input_shape[2:end_dim + 1])
                 n.meta['features_calculator'] = FlattenFeaturesCalculator(ifc, int(flattened_size))
             else:
                 n.meta['features_calculator'] = ifc  # just propagate the features
@@ -123,9 +125,10 @@ def add_features_calculator(mod: fx.GraphModule, extra_rules: List[Callable] = [
             # TODO: add support for no dim by looking at which dimensions are 1
             if dim is None:
                 raise ValueError("Squeeze without dim not supported")
-            assert dim != 0 and len(input_shape) - dim != 0, \
-                "Squeezing the batch is not supported"
-            if dim == 1 or len(input_shape) - dim == 1:
+            dim = dim + len(input_shape) if dim < 0 else dim
+            assert dim != 0, "Squeezing the batch is not supported"
+            if dim == 1:
+                # the (size-1) features axis goes away: the next axis becomes the features
                 flattened_size = input_shape[2]
                 n.meta['features_calculator'] = FlattenFeaturesCalculator(ifc, flattened_size)
             else:
@@ -199,10 +202,10 @@ def associate_input_features(mod: fx.GraphModule):
         elif prev.meta['flatten']:
             input_shape = prev.all_input_nodes[0].meta['tensor_meta'].shape
             start_dim = try_get_args(prev, mod, 1, 'start_dim', 0)
-            assert start_dim != 0 and len(input_shape) - start_dim != 0, \
-                "Flattening the batch not supported"
+            start_dim = start_dim + len(input_shape) if start_dim < 0 else start_dim
+            assert start_dim != 0, "Flattening the batch not supported"
             # if flatten includes the channels
-            if start_dim == 1 or len(input_shape) - start_dim == 1:
+            if start_dim == 1:
                 n.meta['input_features_set_by'] = prev
             else:
                 n.meta['input_features_set_by'] = prev.meta['input_features_set_by']
@@ -220,9 +223,9 @@ def associate_input_features(mod: fx.GraphModule):
             dim = try_get_args(prev, mod, 1, 'dim', None)
             if dim is None:
                 raise ValueError("Squeeze without dim not supported")
-            assert dim != 0 and len(input_shape) - dim != 0, \
-                "Squeezing the batch is not supported"
-            if dim == 1 or len(input_shape) - dim == 1:
+            dim = dim + len(input_shape) if dim < 0 else dim
+            assert dim != 0, "Squeezing the batch is not supported"
+            if dim == 1:
                 n.meta['input_features_set_by'] = prev
             else:
                 n.meta['input_features_set_by'] = prev.meta['input_features_set_by']
